@@ -119,6 +119,21 @@ func SameSlice(a, b interface{}) bool {
 	return va.Len() == 0 && va.IsNil() == vb.IsNil() || va.Len() > 0 && va.Pointer() == vb.Pointer()
 }
 
+// ForallKeys reports whether p holds for every key of the map m (keys of an unsigned integer type). The generator
+// reads it as "for every value of the key type" — p decides itself what to say about absent keys.
+func ForallKeys(m interface{}, p func(k uint64) bool) bool {
+	v := reflect.ValueOf(m)
+	if v.Kind() != reflect.Map {
+		return false
+	}
+	for _, k := range v.MapKeys() {
+		if !p(k.Uint()) {
+			return false
+		}
+	}
+	return true
+}
+
 // Window reports whether out is exactly the window data[lo:hi] of the same
 // memory (an alias, not a copy).
 func Window(out, data []byte, lo, hi int) bool {
